@@ -37,6 +37,8 @@ def run_one(patch, props, tier="quick"):
             viol = [l for l in r.stdout.splitlines() if l.startswith("VIOLATION")]
             why = [l.strip() for l in r.stdout.splitlines() if l.startswith("  ")][:1]
             out["results"][p] = {"exit": r.returncode, "detected": r.returncode == 1 and bool(viol), "seconds": round(time.time() - t0, 1), "why": why[0][:200] if why else ""}
+            if r.returncode not in (0, 1):
+                out["results"][p]["output_tail"] = r.stdout[-1500:]
     finally:
         subprocess.run(["git", "-C", "/repo", "worktree", "remove", "--force", wt], capture_output=True)
         subprocess.run(["git", "-C", "/repo", "worktree", "prune"], capture_output=True)
